@@ -39,6 +39,7 @@ type Engine struct {
 	implCache  map[string][]*ssa.Function
 	dynCache   map[string]*ModSet
 	modsDone   bool
+	importAlias map[string]map[string]string
 	sigCache   map[string][]*ssa.Function
 	loadErrs   []string
 }
@@ -73,6 +74,19 @@ func LoadEngine(repo string) (*Engine, error) {
 	prog, spkgs := ssautil.AllPackages(pkgs, ssa.InstantiateGenerics|ssa.GlobalDebug)
 	prog.Build()
 	e.prog = prog
+	e.importAlias = map[string]map[string]string{}
+	for _, p := range pkgs {
+		m := map[string]string{}
+		for _, f := range p.Syntax {
+			for _, im := range f.Imports {
+				path := strings.Trim(im.Path.Value, "\"")
+				if im.Name != nil && im.Name.Name != "_" && im.Name.Name != "." {
+					m[im.Name.Name] = path
+				}
+			}
+		}
+		e.importAlias[p.PkgPath] = m
+	}
 	for i, sp := range spkgs {
 		if sp == nil {
 			continue
